@@ -26,6 +26,15 @@ def collect(res):
     res.obligations = [o for o in res.obligations if any(k in o.name for k in keep)]
     res.functions = [f for f in res.functions if any(k in f["function"] for k in keep)]
     seq_props.collect_specs(res, iterators.build_nav(reg))
+    # util helpers (verified once against the navigation contracts both families satisfy)
+    from contracts import util
+    uf = util.build(fams[0])
+    for key in (("commonancestors", "function"), ("leftsibling", "function"), ("rightsibling", "function")):
+        fi, obl, fails = heapworld.verify_spec(uf.specs[key])
+        if fi is not None:
+            res.functions.append({"function": fi.ident, "sha256_16": fi.sha, "dropped_decorators": fi.decorators, "obligations": len(obl)})
+        res.struct += fails
+        res.obligations += obl
 
 
 def run(pid, tier, seed):
